@@ -484,7 +484,19 @@ func (f *CallForm) TransitionNP(process *Process, re *RuntimeEnvironment) {
 	}
 
 	// Always perform DUP before CALL, so that if self is passed as the first parameter, then we can safely substitute the first provider
-	TransitionInternally(process, callRule, re)
+	select {
+	case <-re.ctx.Done():
+		// If received cancellation request, then stop
+		return
+	default:
+	}
+
+	if len(process.Providers) > 1 {
+		// Split process if needed (using the non-polarized version of DUP)
+		process.performDUPruleNP(re)
+	} else {
+		callRule()
+	}
 
 	// // Always perform CALL before DUP
 	// prioritiseCallRule := true
